@@ -344,6 +344,46 @@ def fam_nested(arg):
     return acc.result()
 
 
+# ---------------------------------------------------------------- parameter binding in hand-built function models
+
+REST_PARAMS = (['r'], ['a', 'r'], ['a', 'b', 'r'])
+REST_FLAGS = (True, False, None)       # lastArgArray true / explicitly false / absent
+REST_NARGS = (0, 1, 2, 3, 4)
+
+
+def rest_cases():
+    return [{'params': p, 'flag': f, 'n1': n1, 'n2': n2} for p in range(len(REST_PARAMS)) for f in range(len(REST_FLAGS))
+            for n1 in REST_NARGS for n2 in REST_NARGS]
+
+
+def build_rest(case):
+    params = list(REST_PARAMS[case['params']])
+    flag = REST_FLAGS[case['flag']]
+    f = {'name': 'ff', 'args': params, 'statements': [{'return': {'expr': {'function': {'name': 'arrayNew', 'args': [{'variable': p} for p in params]}}}}]}
+    if flag is not None:
+        f['lastArgArray'] = flag
+    call = lambda n: {'function': {'name': 'ff', 'args': [{'number': k + 1} for k in range(n)]}}  # noqa: E731
+    return {'statements': [{'function': f},
+                           {'expr': {'name': 'x', 'expr': {'function': {'name': 'arrayNew', 'args': [call(case['n1']), call(case['n2'])]}}}},
+                           {'return': {'expr': {'variable': 'x'}}}]}
+
+
+def check_rest(case, acc):
+    n = check_model(None, case, acc, model=build_rest(case))
+    acc.nontrivial += 1
+    return n
+
+
+def fam_rest(arg):
+    acc = Acc('restargs')
+    for case in arg:
+        acc.cases += 1
+        check_rest(case, acc)
+    if arg:
+        acc.sample({'case': arg[0], 'model': build_rest(arg[0])})
+    return acc.result()
+
+
 def families(tier):
     load_impl()
     maxlen = 5 if tier == 'quick' else 6
@@ -362,7 +402,10 @@ def families(tier):
     nb = len(F2_BODIES)
     pairs = [(a, b) for a in range(nb) for b in range(nb) if a != b]
     npool = len(cond_pool())
+    rc = rest_cases()
     return [
+        Family('restargs', fam_rest, split(rc, 8), 'a function model with 1..3 parameters and lastArgArray true / false / absent, called twice in one expression with 0..4 arguments each (all pairs): positional binding, missing -> null, surplus ignored, the array parameter collects the rest; the model is unchanged and a re-run repeats',
+               expected=len(REST_PARAMS) * len(REST_FLAGS) * len(REST_NARGS) ** 2),
         Family('nested_function', fam_nested, [list(range(len(nested_models())))], 'hand-built models with a function statement inside a function body: it binds a GLOBAL function when executed', expected=len(nested_models())),
         Family('function2', fam_f2, split(pairs, 24), f'two function statements of the same name with different bodies ({nb} bodies, ordered pairs) in every sequence of length 2..4 over {{F1, F2, call, log, return x}} containing both; each also followed by a second model (definitions swapped) on the same globals',
                expected=len(pairs) * f2_count()),
@@ -376,7 +419,7 @@ def families(tier):
     ]
 
 
-_CHECKS = {'nested_function': check_nested, 'plain': check_plain, 'function': check_fn, 'parsed': check_parsed, 'function2': check_f2, 'conditions': check_cond}
+_CHECKS = {'restargs': check_rest, 'nested_function': check_nested, 'plain': check_plain, 'function': check_fn, 'parsed': check_parsed, 'function2': check_f2, 'conditions': check_cond}
 
 
 def replay(family, case):
